@@ -36,6 +36,11 @@ func ReadResponse(r io.Reader, apiKey ApiKey, apiVersion int16) (correlationID i
 		return
 	}
 
+	if size < 0 {
+		err = fmt.Errorf("invalid negative frame size: %d", size)
+		return
+	}
+
 	d.remain = int(size)
 	correlationID = d.readInt32()
 	if err = d.err; err != nil {
@@ -62,13 +67,16 @@ func ReadResponse(r io.Reader, apiKey ApiKey, apiVersion int16) (correlationID i
 
 	if res.flexible {
 		// In the flexible case, there's a tag buffer at the end of the response header
-		taggedCount := int(d.readUnsignedVarInt())
+		taggedCount := toLength(d.readUnsignedVarInt())
+		if d.lengthOutOfBounds(taggedCount) {
+			taggedCount = 0
+		}
 		for i := 0; i < taggedCount; i++ {
 			d.readUnsignedVarInt() // tagID
 			size := d.readUnsignedVarInt()
 
 			// Just throw away the values for now
-			d.read(int(size))
+			d.read(toLength(size))
 		}
 	}
 
